@@ -63,6 +63,7 @@ type limCase struct {
 	SentAtRsp int64  `json:"sent_at_response,omitempty"`
 	Endless   bool   `json:"endless,omitempty"`
 	Retried   bool   `json:"retried,omitempty"`
+	Variant   string `json:"variant,omitempty"` // jsonp | binary | fragmented | random-size | sweep
 	Err       string `json:"err,omitempty"`
 	Ms        int64  `json:"ms"`
 }
@@ -148,7 +149,12 @@ func (r *limRig) rec(sid string) *sessRec {
 	return s
 }
 
-func wireSize(p *parser.Packet) int64 { return int64(1 + len(p.Data)) }
+func wireSize(p *parser.Packet) int64 {
+	if p.IsBinary {
+		return int64(len(p.Data))
+	}
+	return int64(1 + len(p.Data))
+}
 
 func newLimRig(max int64, dis bool) (*limRig, error) {
 	r := &limRig{max: max, dis: dis, sess: map[string]*sessRec{}}
@@ -267,13 +273,19 @@ func firstProbe(msgs []int64) int64 {
 
 // rawPost sends one POST over a fresh TCP connection.  chunked: no declared size.  endless: keep
 // writing chunks until the response arrives (or cap bytes were written).
-func (r *limRig) rawPost(size int64, chunked, endless bool) (c limCase) {
+func (r *limRig) rawPost(size int64, chunked, endless, jsonp bool) (c limCase) {
 	t0 := time.Now()
 	c = limCase{Max: r.max, Dis: r.dis, Dir: "c2s", Peer: "raw", Size: size, Status: -1, Delivered: -1, Read: -1, Endless: endless}
 	if chunked {
 		c.Tr = "post-chunked"
 	} else {
 		c.Tr = "post-cl"
+	}
+	// JSONP: the payload travels as the form field d; the body is "d=" + payload (size bytes in all)
+	first, ctype, query := "4", "text/plain; charset=UTF-8", ""
+	if jsonp {
+		c.Variant = "jsonp"
+		first, ctype, query = "d=4", "application/x-www-form-urlencoded", "&j=0"
 	}
 	defer func() { c.Ms = time.Since(t0).Milliseconds() }()
 	sid, ann, err := r.pollingHandshake()
@@ -291,16 +303,17 @@ func (r *limRig) rawPost(size int64, chunked, endless bool) (c limCase) {
 	defer conn.Close()
 	conn.SetDeadline(time.Now().Add(30 * time.Second))
 	vreq := strconv.FormatInt(atomic.AddInt64(&vreqSeq, 1), 10)
-	head := "POST /engine.io/?EIO=4&transport=polling&sid=" + sid + " HTTP/1.1\r\nHost: verif\r\n" +
-		"Content-Type: text/plain; charset=UTF-8\r\nX-Vreq: " + vreq + "\r\n"
+	head := "POST /engine.io/?EIO=4&transport=polling&sid=" + sid + query + " HTTP/1.1\r\nHost: verif\r\n" +
+		"Content-Type: " + ctype + "\r\nX-Vreq: " + vreq + "\r\n"
+	nfirst := int64(len(first))
 	var sent int64
 	responded := make(chan struct{})
 	go func() {
 		w := bufio.NewWriterSize(conn, 16384)
 		if !chunked {
 			w.WriteString(head + "Content-Length: " + strconv.FormatInt(size, 10) + "\r\n\r\n")
-			w.WriteByte('4')
-			left := size - 1
+			w.WriteString(first)
+			left := size - nfirst
 			blk := bytes.Repeat([]byte{'a'}, 8192)
 			for left > 0 {
 				n := int64(len(blk))
@@ -317,9 +330,9 @@ func (r *limRig) rawPost(size int64, chunked, endless bool) (c limCase) {
 			return
 		}
 		w.WriteString(head + "Transfer-Encoding: chunked\r\n\r\n")
-		w.WriteString("1\r\n4\r\n")
-		atomic.AddInt64(&sent, 1)
-		left := size - 1
+		fmt.Fprintf(w, "%x\r\n%s\r\n", nfirst, first)
+		atomic.AddInt64(&sent, nfirst)
+		left := size - nfirst
 		blk := bytes.Repeat([]byte{'a'}, 4096)
 		for left > 0 {
 			if endless {
@@ -372,13 +385,16 @@ func (r *limRig) rawPost(size int64, chunked, endless bool) (c limCase) {
 	c.Alive = r.followUp(sid, s)
 	msgs, closed, reason := s.snapshot()
 	c.Delivered = firstProbe(msgs)
+	if jsonp && c.Delivered >= 0 {
+		c.Delivered += 2 // the form prefix "d=" is part of the body, not of the payload
+	}
 	c.Closed, c.Reason = closed, reason
 	return
 }
 
 // ---------------------------------------------------------------- raw websocket peer (client -> server)
 
-func (r *limRig) rawWS(size int64) (c limCase) {
+func (r *limRig) rawWS(size int64, frag bool) (c limCase) {
 	t0 := time.Now()
 	c = limCase{Max: r.max, Dis: r.dis, Tr: "ws", Dir: "c2s", Peer: "raw", Size: size, Status: -1, Delivered: -1, Read: -1}
 	defer func() { c.Ms = time.Since(t0).Milliseconds() }()
@@ -414,8 +430,24 @@ func (r *limRig) rawWS(size int64) (c limCase) {
 		}
 	}()
 	msg := append([]byte{'4'}, bytes.Repeat([]byte{'a'}, int(size-1))...)
-	if err := conn.Write(ctx, websocket.MessageText, msg); err != nil {
-		c.Err = "write: " + err.Error()
+	if frag {
+		// one message in several frames (every Write of the message writer is a frame)
+		c.Variant = "fragmented"
+		if w, err := conn.Writer(ctx, websocket.MessageText); err == nil {
+			for off, k := 0, 0; off < len(msg); off, k = off+k, 0 {
+				k = 1 + (off*7+3)%4096
+				if off+k > len(msg) {
+					k = len(msg) - off
+				}
+				if _, err := w.Write(msg[off : off+k]); err != nil {
+					break
+				}
+			}
+			w.Close()
+		}
+	} else if err := conn.Write(ctx, websocket.MessageText, msg); err != nil {
+		// refused while being written: the observation below tells how it ended
+		c.Reason = "write: " + err.Error()
 	}
 	// follow-up (may fail when the server has closed the connection: that is the observation)
 	conn.Write(ctx, websocket.MessageText, []byte("4ok"))
@@ -438,10 +470,12 @@ func (r *limRig) rawWS(size int64) (c limCase) {
 			c.Alive = true
 		}
 	}
-	select {
-	case cc := <-closeCode:
-		c.CloseCode = cc
-	case <-time.After(50 * time.Millisecond):
+	if closed {
+		select {
+		case cc := <-closeCode:
+			c.CloseCode = cc
+		case <-time.After(time.Second):
+		}
 	}
 	return
 }
@@ -495,8 +529,14 @@ func (r *limRig) dialEIO(transports []string) (eio.ClientSocket, *sessRec, error
 	return sock, cr, nil
 }
 
-func msgPacket(size int64) *parser.Packet {
-	p, err := parser.NewPacket(parser.PacketTypeMessage, false, bytes.Repeat([]byte{'a'}, int(size-1)))
+// msgPacket: a MESSAGE packet of `size` wire bytes on a websocket: text = type byte + data,
+// binary = the data alone (binary frame).
+func msgPacket(size int64, binary bool) *parser.Packet {
+	n := int(size - 1)
+	if binary {
+		n = int(size)
+	}
+	p, err := parser.NewPacket(parser.PacketTypeMessage, binary, bytes.Repeat([]byte{'a'}, n))
 	if err != nil {
 		panic(err)
 	}
@@ -513,10 +553,13 @@ func hasFollow(msgs []int64) bool {
 }
 
 // eioCase: real client <-> real server.  tr: "poll" | "ws"; upgrade: connect by polling and upgrade.
-func (r *limRig) eioCase(tr string, upgrade bool, dir string, size int64) (c limCase) {
+func (r *limRig) eioCase(tr string, upgrade bool, dir string, size int64, binary bool) (c limCase) {
 	t0 := time.Now()
 	c = limCase{Max: r.max, Dis: r.dis, Tr: tr, Dir: dir, Peer: "eio", Size: size, Status: -1, Delivered: -1, Read: -1}
 	defer func() { c.Ms = time.Since(t0).Milliseconds() }()
+	if binary {
+		c.Variant = "binary"
+	}
 	transports := []string{"polling"}
 	if tr == "ws" {
 		transports = []string{"websocket"}
@@ -549,11 +592,11 @@ func (r *limRig) eioCase(tr string, upgrade bool, dir string, size int64) (c lim
 	var recv *sessRec
 	if dir == "c2s" {
 		recv = sr
-		sock.Send(msgPacket(size))
+		sock.Send(msgPacket(size, binary))
 		sock.Send(follow)
 	} else {
 		recv = cr
-		sr.sock.Send(msgPacket(size))
+		sr.sock.Send(msgPacket(size, binary))
 		sr.sock.Send(follow)
 	}
 	recv.waitFor(6*time.Second, func() bool { return recv.closed || hasFollow(recv.msgs) })
@@ -574,7 +617,7 @@ type limJob func() limCase
 
 func limitsMain(args []string) error {
 	fs := flag.NewFlagSet("limits", flag.ExitOnError)
-	_ = fs.Uint64("seed", 1, "")
+	seed := fs.Uint64("seed", 1, "")
 	tier := fs.String("tier", "quick", "quick|thorough")
 	par := fs.Int("par", 6, "cases in flight")
 	outp := fs.String("out", "-", "")
@@ -585,6 +628,7 @@ func limitsMain(args []string) error {
 	}
 	defer out.Close()
 
+	rnd := vk.NewRand(*seed)
 	type cfg struct {
 		max int64
 		dis bool
@@ -592,26 +636,23 @@ func limitsMain(args []string) error {
 	const def = 1000000
 	around := func(l int64) []int64 { return []int64{l - 1, l, l + 1} }
 	lib := []int64{32767, 32768, 32769, 65536}
-	cfgs := []struct {
+	type planCfg struct {
 		cfg
 		limit int64 // effective limit the sizes are placed around (0: none)
-	}{
-		{cfg{100, false}, 100},
-		{cfg{0, false}, def},
-		{cfg{5, true}, 0},
-		{cfg{40000, false}, 40000},
+		sweep bool
+	}
+	cfgs := []planCfg{
+		{cfg{100, false}, 100, false},
+		{cfg{0, false}, def, false},
+		{cfg{5, true}, 0, false},
+		{cfg{40000, false}, 40000, false},
 	}
 	if *tier != "quick" {
-		cfgs = append(cfgs, struct {
-			cfg
-			limit int64
-		}{cfg{-1, false}, 0}, struct {
-			cfg
-			limit int64
-		}{cfg{32768, false}, 32768}, struct {
-			cfg
-			limit int64
-		}{cfg{7, false}, 7})
+		cfgs = append(cfgs,
+			planCfg{cfg{-1, false}, 0, false},
+			planCfg{cfg{32768, false}, 32768, false},
+			planCfg{cfg{7, false}, 7, false},
+			planCfg{cfg{24, false}, 24, true})
 	}
 	var rows []limCase
 	var mu sync.Mutex
@@ -636,25 +677,72 @@ func limitsMain(args []string) error {
 		}
 		sizes = uniq
 		var jobs []limJob
+		tag := func(v string, j limJob) limJob {
+			return func() limCase {
+				c := j()
+				if c.Variant == "" {
+					c.Variant = v
+				}
+				return c
+			}
+		}
 		for _, sz := range sizes {
 			sz := sz
 			jobs = append(jobs,
-				func() limCase { return rig.rawPost(sz, false, false) },
-				func() limCase { return rig.rawPost(sz, true, false) },
-				func() limCase { return rig.rawWS(sz) },
-				func() limCase { return rig.eioCase("poll", false, "c2s", sz) },
-				func() limCase { return rig.eioCase("ws", false, "c2s", sz) },
-				func() limCase { return rig.eioCase("poll", false, "s2c", sz) },
-				func() limCase { return rig.eioCase("ws", false, "s2c", sz) },
+				func() limCase { return rig.rawPost(sz, false, false, false) },
+				func() limCase { return rig.rawPost(sz, true, false, false) },
+				func() limCase { return rig.rawWS(sz, false) },
+				func() limCase { return rig.eioCase("poll", false, "c2s", sz, false) },
+				func() limCase { return rig.eioCase("ws", false, "c2s", sz, false) },
+				func() limCase { return rig.eioCase("poll", false, "s2c", sz, false) },
+				func() limCase { return rig.eioCase("ws", false, "s2c", sz, false) },
 			)
-			if *tier != "quick" || sz == 32769 || sz == cf.limit || sz == cf.limit+1 {
+			edge := sz == 32769 || sz == cf.limit || sz == cf.limit+1
+			if *tier != "quick" || edge {
 				jobs = append(jobs,
-					func() limCase { return rig.eioCase("ws", true, "s2c", sz) },
-					func() limCase { return rig.eioCase("ws", true, "c2s", sz) })
+					func() limCase { return rig.eioCase("ws", true, "s2c", sz, false) },
+					func() limCase { return rig.eioCase("ws", true, "c2s", sz, false) },
+					func() limCase { return rig.eioCase("ws", false, "s2c", sz, true) },
+					func() limCase { return rig.eioCase("ws", false, "c2s", sz, true) },
+					func() limCase { return rig.rawWS(sz, true) },
+					func() limCase { return rig.rawPost(sz, true, false, true) },
+					func() limCase { return rig.rawPost(sz, false, false, true) })
+			}
+		}
+		// seeded sizes anywhere between 3 bytes and twice the limit (200000 when there is none)
+		top := int64(200000)
+		if cf.limit > 0 {
+			top = 2 * cf.limit
+		}
+		nrand := 3
+		if *tier != "quick" {
+			nrand = 12
+		}
+		for i := 0; i < nrand; i++ {
+			sz := 3 + int64(rnd.U64()%uint64(top))
+			if sz == 3 {
+				sz = 4 // 3 is the size of the follow-up message
+			}
+			frag := rnd.Bool()
+			jobs = append(jobs,
+				tag("random-size", func() limCase { return rig.rawPost(sz, false, false, false) }),
+				tag("random-size", func() limCase { return rig.rawPost(sz, true, false, false) }),
+				tag("random-size", func() limCase { return rig.rawWS(sz, frag) }),
+				tag("random-size", func() limCase { return rig.eioCase("ws", false, "s2c", sz, false) }))
+		}
+		if cf.sweep {
+			// every size from 4 bytes to well beyond the limit, on each inbound path and ws outbound
+			for sz := int64(4); sz <= 2*cf.limit+8; sz++ {
+				sz := sz
+				jobs = append(jobs,
+					tag("sweep", func() limCase { return rig.rawPost(sz, false, false, false) }),
+					tag("sweep", func() limCase { return rig.rawPost(sz, true, false, false) }),
+					tag("sweep", func() limCase { return rig.rawWS(sz, false) }),
+					tag("sweep", func() limCase { return rig.eioCase("ws", false, "s2c", sz, false) }))
 			}
 		}
 		// a body of undeclared size that does not end until the server answers (cap 8 MiB)
-		jobs = append(jobs, func() limCase { return rig.rawPost(8<<20, true, true) })
+		jobs = append(jobs, func() limCase { return rig.rawPost(8<<20, true, true, false) })
 		sem := make(chan struct{}, *par)
 		var wg sync.WaitGroup
 		for _, j := range jobs {
